@@ -23,8 +23,8 @@ ANCHOR_FILES = ["src/ropt/transforms/variable_scaler.py", "src/ropt/config/enopt
 RULE = ("case = one user-domain configuration + point + transform set; non-trivial if at least one scale differs from 1 or an offset from 0 and both runs produced results; "
         "distinct key = case index; monitor_counters: fields and evaluator rows compared")
 ASSUMPTIONS = ["scales are positive", "same seed and sampler give the same samples in both runs"]
-REQUIRED = {"quick": {"pairs": 600, "evaluator_rows_compared": 4000, "result_fields_compared": 6356, "constraint_info_fields_compared": 3000, "relative_perturbation_pairs": 100, "initial_values_outside_bounds_cases": 120, "feasibility_points": 4800, "roundtrips": 600, "__nontrivial__": 600},
-            "thorough": {"pairs": 12000, "evaluator_rows_compared": 80000, "result_fields_compared": 127326, "constraint_info_fields_compared": 60000, "relative_perturbation_pairs": 2000, "initial_values_outside_bounds_cases": 2500, "feasibility_points": 96000, "roundtrips": 12000, "__nontrivial__": 12000}}
+REQUIRED = {"quick": {"pairs": 600, "evaluator_rows_compared": 4000, "result_fields_compared": 6356, "constraint_info_fields_compared": 3000, "relative_perturbation_pairs": 100, "initial_values_outside_bounds_cases": 120, "transforms_object_used_for_another_configuration_before": 150, "feasibility_points": 4800, "roundtrips": 600, "__nontrivial__": 600},
+            "thorough": {"pairs": 12000, "evaluator_rows_compared": 80000, "result_fields_compared": 127326, "constraint_info_fields_compared": 60000, "relative_perturbation_pairs": 2000, "initial_values_outside_bounds_cases": 2500, "transforms_object_used_for_another_configuration_before": 3000, "feasibility_points": 96000, "roundtrips": 12000, "__nontrivial__": 12000}}
 N = {"quick": 1000, "thorough": 20000}
 RT = 1e-9
 
@@ -117,6 +117,13 @@ def run_case(case, obs):
     T = make_transforms(tspec)
     tv = T.variables
     cfg0 = ens.make_config(spec)
+    if spec.get("linear") and tv is not None and rng.random() < 0.5:
+        # the transforms object has served another configuration before (other linear constraints, same number of rows)
+        decoy = dict(spec)
+        A0 = np.asarray(spec["linear"]["coefficients"])
+        decoy["linear"] = dict(spec["linear"], coefficients=(A0 * rng.uniform(2.0, 30.0, size=(A0.shape[0], 1)) + rng.normal(size=A0.shape)).tolist())
+        ens.make_config(decoy, T)
+        obs.count("transforms_object_used_for_another_configuration_before")
     cfg1 = ens.make_config(spec, T)
     # ---- identity of the round trip and of the transformed configuration
     obs.count("roundtrips")
